@@ -130,7 +130,7 @@ theorem duo_request_hq0 {cfg : Cfg} {G : Nat} {n : Net} {x y : Nat} {stx sty : N
     have := hinvY.addr; have := hinvY.hsa; omega
   have haL := d.aL_lt
   unfold FormOut at hout
-  rcases hout with ⟨-, a2, -⟩ | ⟨stage', l', hS, hs', hv', hp', htxi, hB', hΦ, hnl⟩
+  rcases hout with ⟨-, a2, -⟩ | ⟨stage', l', hS, hs', hv', hp', htxi, hB', hΦ, hnl, hk2, htok, hpbq⟩
   · rw [htx] at a2; exact absurd (Option.some.inj a2).symm (hlen3 _ _ _)
   have haddr : (upSt stx c).s.p.address = stx.s.p.address := by show c.s.p.address = _; rw [hp']
   rcases htxi with h0 | h0 | ⟨a, h1, h2, h3, h4, h5⟩
